@@ -537,12 +537,16 @@ Proof.
   intros H Hok Hc Hap. unfold send_event in H.
   destruct (String.eqb ev Ev_Done).
   { apply ret_inv in H. destruct H as (_ & _ & ->). discriminate. }
+  destruct (next_state t (m_cur m) ev).
+  2:{ apply ret_inv in H. destruct H as (_ & _ & ->). discriminate. }
   destruct ctx as [c|].
   - destruct (validate_ctx (m_data m) c); cbn [negb] in H.
     + destruct (apply_ctx (m_data m) c) as [d'|].
       * eapply ptl_paying; eauto.
       * apply ret_inv in H. destruct H as (_ & _ & ->). discriminate.
-    + eapply ptl_paying; eauto.
+    + unfold accepted_then_loop in H. destruct (next_state t (m_cur m) Ev_Invalid).
+      * eapply ptl_paying; eauto.
+      * apply ret_inv in H. destruct H as (_ & _ & ->). discriminate.
   - eapply ptl_paying; eauto.
 Qed.
 
@@ -587,6 +591,10 @@ Proof.
     destruct ok; [|cbn in Hok3; discriminate]. cbn [negb] in H.
     change (String.eqb Ev_Succeeded Ev_NoOp) with false in H. cbv iota in H.
     unfold send_event in H. change (String.eqb Ev_Succeeded Ev_Done) with false in H. cbv iota in H.
+    destruct (pay_edge _ _ _ Hl Ha Hm) as (nx0 & Hn0 & _).
+    match type of H with context [next_state t (m_cur ?mm) Ev_Succeeded] =>
+      change (next_state t (m_cur mm) Ev_Succeeded) with (next_state t (m_cur m) Ev_Succeeded) in H end.
+    rewrite Hn0 in H. clear nx0 Hn0.
     unfold persist_then_loop in H.
     apply bind_inv in H. destruct H as (ok & w3 & e5 & e6 & Hp & H & ->).
     apply persist_inv in Hp. subst e5.
